@@ -106,10 +106,10 @@ class PythonParserGenerator(IndentPrintMixin, NodeWalker):
 
     def walk_Rule(self, rule: g.Rule, exp: g.Model | None = None):
         def param_repr(p):
-            if isinstance(p, int | float):
-                return str(p)
-            else:
+            # NOTE: a parameter may be any literal of the grammar language (None included)
+            if isinstance(p, str):
                 return repr(p.split('::')[0])
+            return repr(p)
 
         self.reset_counters()
         params = kwparams = ''
